@@ -741,6 +741,48 @@ static void sibling_check()
   rec("sibling_check " + verdict);
 }
 
+// ---- the companion shell: ANOTHER generated shell type in the same program (same component, other facilities origin).
+// It is constructed once, from a locator that is valid for its origin, and destroyed again; that must simply work.
+static void companion_probe()
+{
+  if (!g_model.shell.companion) return;
+  set_ctr(CTR_QUIET, 1);
+  set_ctr(CTR_SIB_PHASE, 1);   // its component's constructor hook binds throw-away handlers, like the sibling's
+  std::string verdict = "ok";
+  {
+    dzn::locator loc;
+    std::unique_ptr<dzn::pump> pump;
+    std::unique_ptr<dzn::runtime> rt;
+    std::vector<void*> injected;
+    try
+    {
+      if (!g_model.companion_creates)
+      {
+        pump.reset(new dzn::pump);
+        rt.reset(new dzn::runtime);
+        loc.set(*pump);
+        loc.set(*rt);
+      }
+      for (size_t pi = 0; pi < g_model.ports.size(); ++pi)
+      {
+        PortDesc& pd = g_model.ports[pi];
+        if (pd.sem != 3) continue;
+        void* obj = pd.make_injected();
+        pd.put_injected(loc, obj);
+      }
+      g_model.shell.companion(loc);
+    }
+    catch (const std::exception& e)
+    {
+      verdict = std::string("throw what=") + sanitize(e.what());
+    }
+    if (pump) pump->sim_stop();
+  }
+  set_ctr(CTR_QUIET, 0);
+  set_ctr(CTR_SIB_PHASE, 0);
+  rec("companion_ctor result=" + verdict);
+}
+
 static void death_callback() { sim_flush(99); }
 
 static void execute_run(int out_fd)
@@ -795,6 +837,7 @@ static void execute_run(int out_fd)
     }
     const std::string proto_before = contents_digest(uloc);
     rec("user_locator entries=" + proto_before);
+    companion_probe();
     if (R.sibling == 1) sibling_setup();
 
     // ---- construct the shell
